@@ -136,6 +136,7 @@ let dmeta_of = function
   | L [A "vis"; A v] -> DVis (vis_of v)
   | L [A "doc"; A x] -> DDoc (str_of_atom x)
   | L [A "other"; A x] -> DOther (str_of_atom x)
+  | L (A "strum" :: ms) -> DStrum (List.map emeta_of ms)
   | _ -> fail_sexp "dmeta"
 
 let field_of = function
@@ -191,23 +192,25 @@ let res_str (f : 'a -> string) (r : 'a res) : string =
 let defaults n = "(" ^ String.concat "," (List.init n (fun _ -> "d")) ^ ")"
 
 (* ---------- query kinds ---------- *)
-let repr_code_cache : (int, from_repr_code res) Hashtbl.t = Hashtbl.create 64
+let memo (tbl : (int, 'a) Hashtbl.t) (k : int) (f : unit -> 'a) : 'a =
+  match Hashtbl.find_opt tbl k with Some c -> c | None -> let c = f () in Hashtbl.replace tbl k c; c
 
-let q_repr (k : int) (it : item) (legacy : bool) (args : string list) : string =
-  let code =
-    match Hashtbl.find_opt repr_code_cache k with
-    | Some c -> c
-    | None -> let c = if legacy then gen_from_repr_legacy it else gen_from_repr it in
-              Hashtbl.replace repr_code_cache k c; c in
+let legacy = ref false
+let i_nat = int_of_nat
+let hexl (l : str list) = "[" ^ String.concat ";" (List.map hex_of_str l) ^ "]"
+
+(* ----- FromRepr ----- *)
+let repr_code_cache : (int, from_repr_code res) Hashtbl.t = Hashtbl.create 64
+let q_repr (k : int) (it : item) (args : string list) : string =
+  let code = memo repr_code_cache k (fun () -> if !legacy then gen_from_repr_legacy it else gen_from_repr it) in
   res_str (fun c ->
     let show_one x =
       match run_from_repr c x with
       | None -> "none"
-      | Some (i, nf) -> Printf.sprintf "v%d%s" (int_of_nat i) (defaults (int_of_nat nf)) in
+      | Some (i, nf) -> Printf.sprintf "v%d%s" (i_nat i) (defaults (i_nat nf)) in
     match args with
     | ["val"; d] -> show_one (z_of_dec d)
     | ["sweep"] ->
-        (* every value of an 8- or 16-bit discriminant type; only the Some entries are listed *)
         let (lo, hi) = repr_range c.fr_ty in
         let lo = small_int_of_z lo and hi = small_int_of_z hi in
         if hi - lo > 70000 then failwith "sweep on a wide type";
@@ -215,7 +218,7 @@ let q_repr (k : int) (it : item) (legacy : bool) (args : string list) : string =
         for d = lo to hi do
           match run_from_repr c (z_of_int d) with
           | None -> ()
-          | Some (i, nf) -> Buffer.add_string b (Printf.sprintf "%d:v%d%s;" d (int_of_nat i) (defaults (int_of_nat nf)))
+          | Some (i, nf) -> Buffer.add_string b (Printf.sprintf "%d:v%d%s;" d (i_nat i) (defaults (i_nat nf)))
         done;
         "[" ^ Buffer.contents b ^ "]"
     | ["const"] -> if c.fr_const then "const" else "nonconst"
@@ -224,12 +227,388 @@ let q_repr (k : int) (it : item) (legacy : bool) (args : string list) : string =
 let q_discr (it : item) : string =
   "[" ^ String.concat ";" (List.map dec_of_z (rustc_discr it.i_variants)) ^ "]"
 
-let legacy = ref false
+(* ----- EnumString ----- *)
+let param_str = function PDefault -> "d" | PWith f -> "w:" ^ string_of_str f
+let params_str = function
+  | PUnit -> "()"
+  | PTuple l -> "(" ^ String.concat "," (List.map param_str l) ^ ")"
+  | PNamed l -> "(" ^ String.concat "," (List.map (fun (_, p) -> param_str p) l) ^ ")"
+let fs_cache : (int, from_str_code res) Hashtbl.t = Hashtbl.create 64
+let q_fromstr (k : int) (it : item) (args : string list) : string =
+  let code = memo fs_cache k (fun () -> gen_from_str it) in
+  res_str (fun c ->
+    match args with
+    | [inp] ->
+      let s = str_of_atom inp in
+      let show = function
+        | OVariant (v, ps) -> Printf.sprintf "v%d%s" (i_nat v) (params_str ps)
+        | OCapture (v, _, _) -> Printf.sprintf "v%d(in)" (i_nat v)
+        | ONotFound -> "err:notfound"
+        | OCustom (f, a) -> "err:custom:" ^ string_of_str f ^ ":" ^ hex_of_str a in
+      let a = show (run_from_str c s) and b = show (run_try_from c s) in
+      "fs=" ^ a ^ "|tf=" ^ b ^ "|errty=" ^ (if c.fs_custom_err then "custom" else "strum")
+    | _ -> failwith "bad fromstr query") code
 
-let dispatch (k : int) (it : item) (kind : string) (args : string list) : string =
+let q_spell (it : item) : string =
+  match tprops_of it, all_vprops it with
+  | Ok tp, Ok ps ->
+    "nonoverlap=" ^ (if non_overlap_b it then "1" else "0") ^ "|" ^
+    String.concat "|" (List.mapi (fun i p ->
+      Printf.sprintf "%d:%s%s%s%s:%s:%s" i (if p.vp_disabled then "d" else "e") (if p.vp_default then "D" else "")
+        (if vci tp p then "c" else "") (if p.vp_transparent then "t" else "")
+        (hexl (vspell tp p)) (hex_of_str (preferred_name tp.tp_style tp.tp_prefix p))) ps)
+  | Err e, _ | _, Err e -> "generr:" ^ gerr_name e
+  | _ -> "genpanic"
+
+(* ----- Display & co ----- *)
+let parse_spec (args : string list) : fspec =
+  match args with
+  | [fill; al; w; p] ->
+    { sp_fill = (if fill = "-" then str_of_string " " else str_of_atom fill);
+      sp_align = (match al with "-" -> None | "<" -> Some ALeft | ">" -> Some ARight | "^" -> Some ACenter | _ -> failwith "align");
+      sp_width = (if w = "-" then None else Some (nat_of_int (int_of_string w)));
+      sp_prec = (if p = "-" then None else Some (nat_of_int (int_of_string p))) }
+  | [] -> { sp_fill = str_of_string " "; sp_align = None; sp_width = None; sp_prec = None }
+  | _ -> failwith "bad spec"
+let disp_cache : (int, dbody match_code res) Hashtbl.t = Hashtbl.create 64
+let q_display (k : int) (it : item) (args : string list) : string =
+  let code = memo disp_cache k (fun () -> gen_display it) in
+  res_str (fun c ->
+    match args with
+    | _j :: i :: spec ->
+      (match run_display c (nat_of_int (int_of_string i)) (parse_spec spec) with
+       | OutStr s -> "str:" ^ hex_of_str s
+       | OutInner _ -> "inner"
+       | OutArgsNamed (lit, names) -> "argsn:" ^ hex_of_str lit ^ ":" ^ String.concat "," (List.map string_of_str names)
+       | OutArgsPos (lit, n) -> "argsp:" ^ hex_of_str lit ^ ":" ^ string_of_int (i_nat n)
+       | OutPanic -> "panic"
+       | OutNoArm -> "noarm")
+    | _ -> failwith "bad display query") code
+
+let asref_cache : (int, abody match_code res) Hashtbl.t = Hashtbl.create 64
+let q_asref (k : int) (it : item) (args : string list) : string =
+  let code = memo asref_cache k (fun () -> gen_as_ref it) in
+  res_str (fun c ->
+    match args with
+    | _j :: i :: _ ->
+      (match run_as_ref c (nat_of_int (int_of_string i)) with
+       | AOutStr s -> "str:" ^ hex_of_str s
+       | AOutInner _ -> "inner"
+       | AOutPanic -> "panic"
+       | AOutNoArm -> "noarm")
+    | _ -> failwith "bad asref query") code
+
+let intostatic_cache : (int, into_static_code res) Hashtbl.t = Hashtbl.create 64
+let q_intostatic (k : int) (it : item) (args : string list) : string =
+  let code = memo intostatic_cache k (fun () -> gen_into_static it) in
+  res_str (fun c ->
+    match args with
+    | _j :: i :: _ ->
+      (match run_as_ref c.is_arms (nat_of_int (int_of_string i)) with
+       | AOutStr s -> "str:" ^ hex_of_str s
+       | AOutInner _ -> "inner"
+       | AOutPanic -> "panic"
+       | AOutNoArm -> "noarm") ^ (if c.is_const then "|const" else "|nonconst")
+    | _ -> failwith "bad intostatic query") code
+
+let tostring_cache : (int, tbody match_code res) Hashtbl.t = Hashtbl.create 64
+let q_tostring (k : int) (it : item) (args : string list) : string =
+  let code = memo tostring_cache k (fun () -> gen_to_string it) in
+  res_str (fun c ->
+    match args with
+    | _j :: i :: _ ->
+      (match run_match c (nat_of_int (int_of_string i)) with
+       | MArm (TStr s) -> "str:" ^ hex_of_str s
+       | MArm TInnerString -> "inner"
+       | MPanic -> "panic"
+       | MNoArm -> "noarm")
+    | _ -> failwith "bad tostring query") code
+
+let msg_cache : (int, msg_code res) Hashtbl.t = Hashtbl.create 64
+(* C02: parse what the printing derives print (composition inside the model) *)
+let q_roundtrip (k : int) (it : item) (args : string list) : string =
+  match args with
+  | _j :: i :: derives ->
+    let vi = nat_of_int (int_of_string i) in
+    let fsc = memo fs_cache k (fun () -> gen_from_str it) in
+    let show_fs c s =
+      (match run_from_str c s with
+       | OVariant (v, ps) -> Printf.sprintf "v%d%s" (i_nat v) (params_str ps)
+       | OCapture (v, _, _) -> Printf.sprintf "v%d(in)" (i_nat v)
+       | ONotFound -> "err:notfound"
+       | OCustom (f, a) -> "err:custom:" ^ string_of_str f ^ ":" ^ hex_of_str a) in
+    res_str (fun c ->
+      let nospec = parse_spec [] in
+      let parts = List.filter_map (fun d ->
+        match d with
+        | "disp" -> Some ("disp=" ^ (match memo disp_cache k (fun () -> gen_display it) with
+                      | Ok dc -> (match run_display dc vi nospec with OutStr s -> show_fs c s | OutPanic -> "panic" | _ -> "nonfixed")
+                      | _ -> "generr"))
+        | "tostr" -> Some ("tostr=" ^ (match memo tostring_cache k (fun () -> gen_to_string it) with
+                      | Ok tc -> (match run_match tc vi with MArm (TStr s) -> show_fs c s | MPanic -> "panic" | _ -> "nonfixed")
+                      | _ -> "generr"))
+        | "asref" -> Some ("asref=" ^ (match memo asref_cache k (fun () -> gen_as_ref it) with
+                      | Ok ac -> (match run_as_ref ac vi with AOutStr s -> show_fs c s | AOutPanic -> "panic" | _ -> "nonfixed")
+                      | _ -> "generr"))
+        | "into" -> Some ("into=" ^ (match memo intostatic_cache k (fun () -> gen_into_static it) with
+                      | Ok ic -> (match run_as_ref ic.is_arms vi with AOutStr s -> show_fs c s | AOutPanic -> "panic" | _ -> "nonfixed")
+                      | _ -> "generr"))
+        | "sers" -> Some ("sers=" ^ (match memo msg_cache k (fun () -> gen_message it) with
+                      | Ok mc -> (match run_serializations mc vi with
+                                  | Some l -> "[" ^ String.concat ";" (List.map (show_fs c) l) ^ "]" | None -> "noarm")
+                      | _ -> "generr"))
+        | _ -> None) derives in
+      String.concat "|" parts) fsc
+  | _ -> failwith "bad roundtrip query"
+
+(* C11: E::from_str(s)?.to_string() inside the model *)
+let q_caprt (k : int) (it : item) (args : string list) : string =
+  match args with
+  | [inp] ->
+    let s = str_of_atom inp in
+    res_str (fun c ->
+      match memo disp_cache k (fun () -> gen_display it) with
+      | Ok dc ->
+        let show vi captured =
+          (match run_display dc vi (parse_spec []) with
+           | OutStr x -> "str:" ^ hex_of_str x
+           | OutInner _ -> (match captured with Some x -> "str:" ^ hex_of_str x | None -> "inner-default")
+           | OutPanic -> "panic" | _ -> "other") in
+        (match run_from_str c s with
+         | OVariant (v, _) -> show v None
+         | OCapture (v, _, x) -> show v (Some x)
+         | ONotFound -> "err:notfound"
+         | OCustom (f, a) -> "err:custom")
+      | Err e -> "generr:" ^ gerr_name e
+      | Panic -> "genpanic") (memo fs_cache k (fun () -> gen_from_str it))
+  | _ -> failwith "bad caprt query"
+
+let q_names (it : item) : string = res_str hexl (gen_variant_names it)
+
+(* ----- EnumIter / EnumCount / VariantArray ----- *)
+let iter_cache : (int, iter_code res) Hashtbl.t = Hashtbl.create 64
+let ctor_str (c : ctor) = Printf.sprintf "v%d%s" (i_nat c.ct_variant) (defaults (i_nat c.ct_nfields))
+let q_iter (k : int) (it : item) : string =
+  res_str (fun c -> "[" ^ String.concat ";" (List.map ctor_str (ic_table c)) ^ "]") (memo iter_cache k (fun () -> gen_iter it))
+let q_count (it : item) : string = res_str (fun n -> string_of_int (i_nat n)) (gen_count it)
+let q_array (it : item) : string =
+  res_str (fun l -> "[" ^ String.concat ";" (List.map (fun n -> "v" ^ string_of_int (i_nat n)) l) ^ "]") (gen_variant_array it)
+
+let w64 = z_of_dec "18446744073709551616"
+let parse_hop (tok : string) : hop =
+  (* "<slot>:<op>" or "c<slot>";  op: n | b | t<k> | u<k> | l | h *)
+  if tok.[0] = 'c' then HClone (nat_of_int (int_of_string (String.sub tok 1 (String.length tok - 1))))
+  else
+    let ci = String.index tok ':' in
+    let slot = nat_of_int (int_of_string (String.sub tok 0 ci)) in
+    let op = String.sub tok (ci + 1) (String.length tok - ci - 1) in
+    let arg () = z_of_dec (String.sub op 1 (String.length op - 1)) in
+    HOp (slot, (match op.[0] with
+      | 'n' -> OpNext | 'b' -> OpNextBack | 't' -> OpNth (arg ()) | 'u' -> OpNthBack (arg ())
+      | 'l' -> OpLen | 'h' -> OpSizeHint | _ -> failwith ("bad iterator op " ^ tok)))
+let q_iterops (k : int) (it : item) (args : string list) : string =
+  res_str (fun c ->
+    let cnt = iter_count c in
+    let hs = List.map parse_hop args in
+    let show mode =
+      let step = if !legacy then it_step_legacy w64 mode cnt else it_step w64 mode cnt in
+      let obs = run_hist step [ist0] hs in
+      String.concat ";" (List.filter_map (fun o ->
+        match o with
+        | None -> None
+        | Some (ObsItem None) -> Some "none"
+        | Some (ObsItem (Some kz)) ->
+            (match iter_get c kz with Some ct -> Some ("v" ^ string_of_int (i_nat ct.ct_variant)) | None -> Some "none")
+        | Some (ObsLen n) -> Some ("len=" ^ dec_of_z n)
+        | Some (ObsHint (a, b)) -> Some ("hint=" ^ dec_of_z a ^ "," ^ dec_of_z b)
+        | Some ObsPanic -> Some "panic") obs) in
+    "debug=" ^ show Debug ^ "|release=" ^ show Release) (memo iter_cache k (fun () -> gen_iter it))
+
+(* ----- EnumTable ----- *)
+let table_cache : (int, table_code res) Hashtbl.t = Hashtbl.create 64
+let split_on c s = String.split_on_char c s
+let q_table (k : int) (it : item) (args : string list) : string =
+  res_str (fun c ->
+    let nslots = List.length c.tb_slots in
+    let show_t (t : int list) = "[" ^ String.concat "," (List.map string_of_int t) ^ "]" in
+    match args with
+    | "slots" :: [] ->
+        "[" ^ String.concat ";" (List.map (fun (v, n) -> Printf.sprintf "v%d:%s" (i_nat v) (string_of_str n)) c.tb_slots) ^ "]"
+        ^ "|disabled=[" ^ String.concat ";" (List.map (fun v -> "v" ^ string_of_int (i_nat v)) c.tb_disabled) ^ "]"
+    | ctor :: ops ->
+      let t0 : int list =
+        (match split_on ':' ctor with
+         | ["new"; vals] -> tb_new (List.map int_of_string (split_on ',' vals))
+         | ["filled"; x] -> tb_filled c (int_of_string x)
+         | ["closure"] -> tb_from_closure c (fun v -> 10 * i_nat v + 1)
+         | _ -> failwith "bad table ctor") in
+      if List.length t0 <> nslots then failwith "table arity";
+      let t = ref t0 in
+      let out = List.map (fun op ->
+        match op.[0] with
+        | 'r' -> (match tb_index c !t (nat_of_int (int_of_string (String.sub op 1 (String.length op - 1)))) with
+                  | TOk x -> string_of_int x | TPanic -> "panic" | TNoArm -> "noarm")
+        | 'w' -> (match split_on '=' (String.sub op 1 (String.length op - 1)) with
+                  | [v; x] -> (match tb_set c !t (nat_of_int (int_of_string v)) (int_of_string x) with
+                               | TOk t' -> t := t'; "ok" | TPanic -> "panic" | TNoArm -> "noarm")
+                  | _ -> failwith "bad write")
+        | 'T' -> t := tb_transform c (fun v x -> x * 100 + i_nat v) !t; "t"
+        | 'D' -> show_t !t
+        | 'A' -> (* all(): slots listed in the mask (bit per slot position) are None *)
+            let mask = int_of_string (String.sub op 1 (String.length op - 1)) in
+            let opt = List.mapi (fun p x -> if (mask lsr p) land 1 = 1 then None else Some x) !t in
+            (match tb_all opt with Some l -> "some" ^ show_t l | None -> "none")
+        | 'O' -> (* all_ok(): slots in the mask are Err(position) *)
+            let mask = int_of_string (String.sub op 1 (String.length op - 1)) in
+            let rs = List.mapi (fun p x -> if (mask lsr p) land 1 = 1 then Inr p else Inl x) !t in
+            (match tb_all_ok rs with Inl l -> "ok" ^ show_t l | Inr e -> "err" ^ string_of_int e)
+        | _ -> failwith ("bad table op " ^ op)) ops in
+      String.concat ";" out
+    | _ -> failwith "bad table query") (memo table_cache k (fun () -> gen_table it))
+
+(* ----- EnumIs / EnumTryAs ----- *)
+let q_is (it : item) (args : string list) : string =
+  res_str (fun ms ->
+    match args with
+    | ["names"] -> "[" ^ String.concat ";" (List.map (fun m -> string_of_str m.im_name) ms) ^ "]"
+    | _j :: i :: _ ->
+      let vi = nat_of_int (int_of_string i) in
+      "[" ^ String.concat ";" (List.map (fun m -> string_of_str m.im_name ^ "=" ^ (if run_is m vi then "1" else "0")) ms) ^ "]"
+    | _ -> failwith "bad is query") (gen_is it)
+let q_tryas (it : item) (args : string list) : string =
+  res_str (fun ms ->
+    match args with
+    | ["names"] -> "[" ^ String.concat ";" (List.map (fun m -> string_of_str m.tm_base) ms) ^ "]"
+    | _j :: i :: _ ->
+      let vi = nat_of_int (int_of_string i) in
+      "[" ^ String.concat ";" (List.map (fun m ->
+        string_of_str m.tm_base ^ "=" ^
+        (match run_try_as m vi with
+         | None -> "none"
+         | Some l -> "some(" ^ String.concat "," (List.map (fun p -> "f" ^ string_of_int (i_nat p)) l) ^ ")")) ms) ^ "]"
+    | _ -> failwith "bad tryas query") (gen_try_as it)
+
+(* ----- EnumMessage / EnumProperty ----- *)
+let oo_str = function
+  | None -> "noarm" | Some None -> "none" | Some (Some s) -> "some:" ^ hex_of_str s
+let q_msg (k : int) (it : item) (args : string list) : string =
+  res_str (fun c ->
+    match args with
+    | _j :: i :: _ ->
+      let vi = nat_of_int (int_of_string i) in
+      "m=" ^ oo_str (run_message c vi) ^ "|d=" ^ oo_str (run_detailed c vi) ^ "|doc=" ^ oo_str (run_documentation c vi)
+      ^ "|ser=" ^ (match run_serializations c vi with Some l -> hexl l | None -> "noarm")
+    | _ -> failwith "bad msg query") (memo msg_cache k (fun () -> gen_message it))
+let props_cache : (int, props_code res) Hashtbl.t = Hashtbl.create 64
+let q_prop (k : int) (it : item) (args : string list) : string =
+  res_str (fun c ->
+    match args with
+    | _j :: i :: key :: _ ->
+      let vi = nat_of_int (int_of_string i) and key = str_of_atom key in
+      let sh f = function None -> "noarm" | Some None -> "none" | Some (Some x) -> "some:" ^ f x in
+      "s=" ^ sh hex_of_str (run_get_str c vi key) ^ "|i=" ^ sh dec_of_z (run_get_int c vi key)
+      ^ "|b=" ^ sh (fun b -> if b then "1" else "0") (run_get_bool c vi key)
+    | _ -> failwith "bad prop query") (memo props_cache k (fun () -> gen_props it))
+
+(* ----- EnumDiscriminants ----- *)
+let disc_cache : (int, discr_code res) Hashtbl.t = Hashtbl.create 64
+let vis_name = function VInherited -> "inherited" | VPub -> "pub" | VPubCrate -> "pubcrate" | VPubSuper -> "pubsuper"
+let repr_name = function
+  | RU8 -> "u8" | RU16 -> "u16" | RU32 -> "u32" | RU64 -> "u64" | RUsize -> "usize"
+  | RI8 -> "i8" | RI16 -> "i16" | RI32 -> "i32" | RI64 -> "i64" | RIsize -> "isize" | ROther -> "other"
+let q_disc (k : int) (it : item) (args : string list) : string =
+  res_str (fun c ->
+    match args with
+    | ["item"] ->
+      let d = c.dc_item in
+      Printf.sprintf "name=%s|vis=%s|repr=%s|derives=%s|variants=%s|discr=[%s]|intodisc=%d"
+        (string_of_str d.i_ident) (vis_name d.i_vis)
+        (match d.i_repr with None -> "none" | Some r -> repr_name r)
+        (String.concat "," (List.map string_of_str c.dc_derives))
+        (String.concat "," (List.map (fun v -> string_of_str v.v_ident) d.i_variants))
+        (String.concat ";" (List.map dec_of_z (rustc_discr d.i_variants)))
+        (if c.dc_into_discriminant then 1 else 0)
+    | _j :: i :: _ ->
+      (match run_discr_from c (nat_of_int (int_of_string i)) with
+       | Some v -> "v" ^ string_of_int (i_nat v) | None -> "noarm")
+    | _ -> failwith "bad disc query") (memo disc_cache k (fun () -> gen_discriminants it))
+
+(* the generated discriminant enum as an item: queries of the other kinds can be run ON it *)
+let disc_item (k : int) (it : item) : item =
+  match memo disc_cache k (fun () -> gen_discriminants it) with
+  | Ok c -> c.dc_item
+  | _ -> failwith "EnumDiscriminants generator failed"
+
+(* ----- casing ----- *)
+let q_casing (args : string list) : string =
+  match args with
+  | ["style"; s] -> (match style_of_string (str_of_atom s) with Some _ -> "ok" | None -> "unknown")
+  | ["convert"; st; id] ->
+      let st = if st = "-" then None else (match style_of_string (str_of_atom st) with Some x -> Some x | None -> failwith "unknown style") in
+      hex_of_str (convert_case st (str_of_atom id))
+  | ["snakify"; id] -> hex_of_str (snakify (str_of_atom id))
+  | ["stylename"; s] ->
+      (match style_of_string (str_of_atom s) with
+       | None -> "unknown"
+       | Some st -> (match st with
+           | CamelCase -> "CamelCase" | KebabCase -> "KebabCase" | MixedCase -> "MixedCase"
+           | ShoutySnakeCase -> "ShoutySnakeCase" | SnakeCase -> "SnakeCase" | TitleCase -> "TitleCase"
+           | UpperCase -> "UpperCase" | LowerCase -> "LowerCase" | ScreamingKebabCase -> "ScreamingKebabCase"
+           | PascalCase -> "PascalCase" | TrainCase -> "TrainCase"))
+  | _ -> failwith "bad casing query"
+
+(* ----- outcome classes ----- *)
+let derive_of = function
+  | "EnumString" -> DvEnumString | "Display" -> DvDisplay | "AsRefStr" -> DvAsRefStr
+  | "IntoStaticStr" -> DvIntoStaticStr | "VariantNames" -> DvVariantNames | "VariantArray" -> DvVariantArray
+  | "EnumIter" -> DvEnumIter | "EnumCount" -> DvEnumCount | "FromRepr" -> DvFromRepr | "EnumTable" -> DvEnumTable
+  | "EnumIs" -> DvEnumIs | "EnumTryAs" -> DvEnumTryAs | "EnumMessage" -> DvEnumMessage
+  | "EnumProperty" -> DvEnumProperty | "EnumDiscriminants" -> DvEnumDiscriminants
+  | "ToString" -> DvToString | "AsStaticStr" -> DvAsStaticStr
+  | d -> failwith ("unknown derive " ^ d)
+let rule_name = function
+  | RNonEnum -> "nonenum" | RNonUnit -> "nonunit" | RLifetime -> "lifetime" | RDupVariantAttr -> "dupvariantattr"
+  | RDupEnumAttr -> "dupenumattr" | RTwoDefaults -> "twodefaults" | RDefaultArity -> "defaultarity"
+  | RTransparentArity -> "transparentarity" | RUnitPlaceholder -> "unitplaceholder" | RUnknownStyle -> "unknownstyle"
+  | ROneParseErr -> "oneparseerr" | RBadPropLiteral -> "badpropliteral"
+let q_outcome (it : item) (args : string list) : string =
+  match args with
+  | [d] ->
+    let dv = derive_of d in
+    let rules = List.filter (fun r -> rule_applies r dv it) all_rules in
+    res_str (fun () -> "ok") (outcome dv it) ^ "|rules=" ^ String.concat "," (List.map rule_name rules)
+  | _ -> failwith "bad outcome query"
+
+let rec dispatch (k : int) (it : item) (kind : string) (args : string list) : string =
   match kind with
-  | "repr" -> q_repr k it !legacy args
+  | "repr" -> q_repr k it args
   | "discr" -> q_discr it
+  | "fromstr" -> q_fromstr k it args
+  | "spell" -> q_spell it
+  | "display" -> q_display k it args
+  | "asref" -> q_asref k it args
+  | "intostatic" | "asstatic" -> q_intostatic k it args
+  | "tostring" -> q_tostring k it args
+  | "names" -> q_names it
+  | "roundtrip" -> q_roundtrip k it args
+  | "caprt" -> q_caprt k it args
+  | "iter" -> q_iter k it
+  | "count" -> q_count it
+  | "array" -> q_array it
+  | "iterops" -> q_iterops k it args
+  | "table" -> q_table k it args
+  | "is" -> q_is it args
+  | "tryas" -> q_tryas it args
+  | "msg" -> q_msg k it args
+  | "prop" -> q_prop k it args
+  | "disc" -> q_disc k it args
+  | "ondisc" ->
+      (* a query of another kind evaluated on the generated discriminant enum *)
+      (match args with
+       | kind2 :: rest -> dispatch (k + 1000000) (disc_item k it) kind2 rest
+       | [] -> failwith "bad ondisc query")
+  | "casing" -> q_casing args
+  | "outcome" -> q_outcome it args
   | _ -> failwith ("unknown query kind " ^ kind)
 
 let () =
@@ -237,6 +616,7 @@ let () =
   Array.iteri (fun i a -> if i > 0 then (if a = "--legacy" then legacy := true else file := a)) Sys.argv;
   let ic = open_in !file in
   let defs : (int, item) Hashtbl.t = Hashtbl.create 256 in
+  let dummy = lazy (item_of (parse_sexp "(item enum x45 0 0 0 pub (metas) (dmetas) (repr none) (variants))")) in
   (try
     while true do
       let line = input_line ic in
@@ -250,8 +630,10 @@ let () =
         match String.split_on_char ' ' line with
         | _ :: n :: k :: kind :: args ->
             let k = int_of_string k in
-            let it = (try Hashtbl.find defs k with Not_found -> failwith ("query on unknown def " ^ string_of_int k)) in
-            let obs = (try dispatch k it kind args with Failure m -> "MODEL-FAILURE:" ^ m) in
+            let it = if k < 0 then Lazy.force dummy else
+              (try Hashtbl.find defs k with Not_found -> failwith ("query on unknown def " ^ string_of_int k)) in
+            let obs = (try dispatch k it kind args with Failure m -> "MODEL-FAILURE:" ^ m | Not_found -> "MODEL-FAILURE:not_found"
+                                                       | Invalid_argument m -> "MODEL-FAILURE:" ^ m) in
             print_string n; print_char '\t'; print_endline obs
         | _ -> failwith ("bad query line: " ^ line)
       end
